@@ -9,23 +9,48 @@
 (*          entries with their global seqno)                               *)
 (*   act    records in the active memtable (lost by a reopen)              *)
 (*   sld    records in sealed memtables (lost by a reopen)                 *)
+(*   clears seqnos at which clear() was installed                          *)
+(*   taint  <<key, seqno>>: a drop_range installed at seqno covered key    *)
+(*   haz    keys hit by a listed known finding (KnownFindings.tla)         *)
 (***************************************************************************)
 EXTENDS LsmCore
 
-AInit == [log |-> {}, act |-> {}, sld |-> {}]
+AInit == [log |-> {}, act |-> {}, sld |-> {}, clears |-> {}, taint |-> {}, haz |-> {}]
+
+\* records a snapshot S can see: written below S and not cut off by a clear below S
+LiveAt(a, S) == {r \in a.log : r.s < S /\ \A c \in a.clears : c < S => r.s > c}
 
 \* what an ordered map replaying the acknowledged writes returns at snapshot S
 Oracle(a, k, S) ==
-    LET r == NewestIn(a.log, k, S)
+    LET r == NewestIn(LiveAt(a, S), k, S)
     IN IF r = None \/ IsTomb(r) THEN NoVal ELSE r.v
 
-OracleScan(a, S, b) == ScanOf(a.log, S, b)
+OracleScan(a, S, b) == ScanOf(LiveAt(a, S), S, b)
+
+\* drop_range deliberately leaves reads of the keys it covered unconstrained (for
+\* snapshots taken after it) until the key is written again
+\*   taint: set of <<k, d>>: a drop_range installed with seqno d covered key k
+Defined(a, k, S) ==
+    /\ k \notin a.haz
+    /\ \A p \in a.taint :
+        p[1] = k /\ p[2] < S => \E r \in LiveAt(a, S) : r.k = k /\ r.s > p[2]
 
 Durable(a) == a.log \ (a.act \cup a.sld)
+LiveDurable(a) == LiveAt(a, Top) \ (a.act \cup a.sld)
 
 AWrite(a, es)  == [a EXCEPT !.log = @ \cup es, !.act = @ \cup es]
 ARotate(a)     == [a EXCEPT !.sld = @ \cup a.act, !.act = {}]
 AFlush(a)      == [a EXCEPT !.sld = {}]
-AReopen(a)     == [log |-> Durable(a), act |-> {}, sld |-> {}]
+AReopen(a)     == [a EXCEPT !.log = Durable(a), !.act = {}, !.sld = {}]
+\* clear installed with seqno c
+AClear(a, c)   == [a EXCEPT !.clears = @ \cup {c}, !.act = {}, !.sld = {}]
+\* drop_range over the key set ks installed with seqno d
+ADropRange(a, ks, d) == [a EXCEPT !.taint = @ \cup {<<k, d>> : k \in ks}]
+\* keys hit by a listed known finding (KnownFindings.tla): reads of them are excluded
+\* from the verdict and reported as KNOWN instead
+AHazard(a, ks) == [a EXCEPT !.haz = @ \cup ks]
+
+\* ingestion: pending memtables are flushed, then the batch appears with seqno g
+AIngest(a, es) == [a EXCEPT !.log = @ \cup es, !.act = {}, !.sld = {}]
 
 =============================================================================
